@@ -8,7 +8,7 @@
     tolerance literals and the order of the calls in validateTileMatrixSet are regenerated from
     /repo on every run (gen/TmsData.v). *)
 From Coq Require Import ZArith QArith String List Bool.
-From Texel Require Import Tms.Json Tms.Model Tms.ProofsC14 Tms.ProofsC14b.
+From Texel Require Import Tms.Json Tms.Model Tms.ProofsC14 Tms.ProofsC14b Tms.F64Ratio.
 From Texel.Gen Require Import ConstsGen TmsData.
 Import ListNotations.
 Open Scope Z_scope.
@@ -34,6 +34,22 @@ Theorem C14_isQuadTree_sound : forall t, isQuadTree t = Accept ->
 Proof. exact isQuadTree_sound_lemma. Qed.
 Print Assumptions C14_isQuadTree_sound.
 
+(** What the binary64 ratio test means for the EXACT quotient of the two float64 cell sizes: it lies within
+    [1.99 - 2^-50, 2.01 + 2^-50] (the float64 images of the literals 1.99 / 2.01 and the rounding of the division
+    account for the 2^-50); conversely an exact quotient outside that interval fails the test. *)
+Theorem C14_ratio_exact : forall prev cur, ratio_ok prev cur = true ->
+  exists a b, f64_dec prev = FNum a /\ f64_dec cur = FNum b /\ ~ (b == 0)%Q /\
+    ((199 # 100) - (1 # 2 ^ 50) <= a / b)%Q /\ (a / b <= (201 # 100) + (1 # 2 ^ 50))%Q.
+Proof. exact ratio_ok_bounds. Qed.
+Print Assumptions C14_ratio_exact.
+
+Theorem C14_ratio_beyond_tolerance_fails : forall prev cur a b,
+  f64_dec prev = FNum a -> f64_dec cur = FNum b ->
+  (a / b < (199 # 100) - (1 # 2 ^ 50))%Q \/ ((201 # 100) + (1 # 2 ^ 50) < a / b)%Q ->
+  ratio_ok prev cur = false.
+Proof. exact ratio_beyond_tolerance_fails. Qed.
+Print Assumptions C14_ratio_beyond_tolerance_fails.
+
 (** the sorted list has exactly the members of the map *)
 Theorem C14_sorted_is_the_map : forall t e, In e (sorted_matrices t) <-> In e (t_matrices t).
 Proof. exact in_sorted_iff. Qed.
@@ -44,7 +60,7 @@ Theorem C14_source_shape :
   gen_quadtree_ratio_lo = Dec 199 (-2) /\ gen_quadtree_ratio_hi = Dec 201 (-2) /\
   gen_validate_calls = ["pointindex.IsQuadTree"; "len"; "errors.New"; "index tms.TileMatrices"; "fmt.Errorf";
                         "slices.Max"; "pointindex.DeviationStats"]%string.
-Proof. repeat split; reflexivity. Qed.
+Proof. exact source_shape_lemma. Qed.
 Print Assumptions C14_source_shape.
 
 (** The composite validation adds: some tile matrix is requested, every requested id is a tile matrix of the set,
